@@ -20,17 +20,26 @@ VARIABLE i
 
 Rng(f) == {f[x] : x \in DOMAIN f}
 
+(* One "load" line carries one record per (validator mode, entry point): m.mode \in {none,      *)
+(* native, frr}, m.entry \in {toConfig, webhook, for}; values are compared for toConfig only.      *)
+
 (* computing the configuration twice from the same snapshot yields equal values *)
-Repeatable(o) == o.reps.neq = 0 /\ (o.reps.nacc = 0 \/ o.reps.nrej = 0) /\ (o.first_ok <=> o.reps.nrej = 0)
+Repeatable(m) == m.reps.neq = 0 /\ (m.reps.nacc = 0 \/ m.reps.nrej = 0) /\ (m.first_ok <=> m.reps.nrej = 0)
 
 (* the same value whatever the listing order (only meaningful where a       *)
 (* single load has a value at all: Repeatable reports the other case)       *)
-OrderFree(o) == Repeatable(o) => (\A k \in Rng(o.kinds) : k.neq = 0) /\ o.comb.neq = 0
+OrderFree(m) == Repeatable(m) => (\A k \in Rng(m.kinds) : k.neq = 0) /\ m.comb.neq = 0
 
 (* acceptance or rejection does not depend on the listing order             *)
-AcceptanceOrderFree(o) ==
-  LET all == Rng(o.kinds) \cup {o.comb} IN
-  IF o.first_ok THEN \A k \in all : k.nrej = 0 ELSE \A k \in all : k.nacc = 0
+AcceptanceOrderFree(m) ==
+  LET all == Rng(m.kinds) \cup {m.comb} IN
+  IF m.first_ok THEN \A k \in all : k.nrej = 0 ELSE \A k \in all : k.nacc = 0
+
+ModeFails(m) ==
+  LET tag == "@" \o m.mode \o "/" \o m.entry IN
+  (IF Repeatable(m) THEN {} ELSE {"C18.Repeatable" \o tag}) \cup
+  (IF OrderFree(m) THEN {} ELSE {"C18.OrderFree" \o tag}) \cup
+  (IF AcceptanceOrderFree(m) THEN {} ELSE {"C18.AcceptanceOrderFree" \o tag})
 
 (* an unrelated event (or no event) never triggers the handler              *)
 NoSpuriousReload(o) ==
@@ -44,10 +53,7 @@ ReloadOnChange(o) == (o.dig # "" /\ o.dig # o.applied) => o.calls >= 1
 Fails(k) ==
   LET o == Trace[k] IN
   IF o.t = "load" /\ o.panic # "" THEN {"C18.NoPanic"}
-  ELSE IF o.t = "load" THEN
-    (IF Repeatable(o) THEN {} ELSE {"C18.Repeatable"}) \cup
-    (IF OrderFree(o) THEN {} ELSE {"C18.OrderFree"}) \cup
-    (IF AcceptanceOrderFree(o) THEN {} ELSE {"C18.AcceptanceOrderFree"})
+  ELSE IF o.t = "load" THEN UNION {ModeFails(m) : m \in Rng(o.modes)}
   ELSE
     (IF NoSpuriousReload(o) THEN {} ELSE {"C18.NoSpuriousReload"}) \cup
     (IF ReloadOnChange(o) THEN {} ELSE {"C18.ReloadOnChange"})
